@@ -120,7 +120,8 @@ func (h *histEnv) exec(op histOp) string {
 			res += "\nerr=" + err.Error()
 		}
 	}
-	if !reflect.DeepEqual(data, before) {
+	// (channels and functions in the data of the unsupported-kind operations are not comparable)
+	if _, comparable := op.Data.Model(); comparable && !reflect.DeepEqual(data, before) {
 		res += "\nDATA-MODIFIED"
 	}
 	return strings.ReplaceAll(res, h.root, "<root>")
@@ -315,6 +316,18 @@ func c16Trees() []histCase {
 		{Kind: "string", Name: "greet", Data: d}, {Kind: "string", Name: "greet", Data: d2}, {Kind: "response", Name: "greet", Data: nil},
 		{Kind: "string", Name: "person", Data: pa}, {Kind: "string", Name: "person", Data: pb}, {Kind: "evalstring", Src: "{{ p.email }}/{{ p.Age }}", Data: pb},
 	}
+	// data the library cannot take, of several kinds (the call fails; what the message names is that call's own value)
+	withBad := func(v *spec.Value) *spec.Data {
+		return specData(map[string]any{"name": "N", "items": []int{1, 2}, "flag": true}).Add("zbad", v)
+	}
+	ops = append(ops,
+		histOp{Kind: "string", Name: "plain", Data: withBad(spec.Unsupported(spec.TChan))},
+		histOp{Kind: "evalstring", Src: "{{ 1 }}", Data: withBad(spec.Unsupported(spec.TFunc))},
+		histOp{Kind: "string", Name: "plain", Data: withBad(spec.Unsupported(spec.TIntMap))},
+		histOp{Kind: "response", Name: "plain", Data: withBad(spec.Slice(spec.T(spec.TAny), spec.Any(spec.Unsupported(spec.TBoolMap))))},
+		histOp{Kind: "evalfile", Name: "plain", Data: withBad(spec.Struct([]string{"Inner"}, []*spec.Value{spec.Unsupported(spec.TComplex)}))},
+		histOp{Kind: "evalstring", Src: "{{ name }}", Data: withBad(spec.Map(spec.T(spec.TAny), []string{"k"}, []*spec.Value{spec.Any(spec.Unsupported(spec.TIntMap))}))},
+	)
 	return []histCase{
 		{Files: files, Ops: ops},
 		{Files: files, Ops: ops, Debug: true},
@@ -344,7 +357,7 @@ func c16NonTrivial(cs histCase) bool {
 func TestC16_HistoriesEnum(t *testing.T) {
 	maxLen := harness.Pick(2, 3)
 	c := harness.New(t, "C16", "histories-enum",
-		fmt.Sprintf("every history of length <= %d (2 quick, 3 thorough) over 33 operation instances {String, Response, EvaluateString, EvaluateFile} x {succeeding, failing at run time, not found} on a template directory with layout, component, loops and objects, under up to 6 configurations (debug on/off x no / working / missing / failing custom error page). Each operation's result (output, or error message + line + path, Response body + returned error) must equal the result of the same operation issued first after a fresh load; afterwards all operations still give their baselines, the configuration is unchanged and the caller's data is deep-equal to a copy. Non-trivial: a failing render or failing Response after a string/file evaluation or an error page. Distinct by construction.", maxLen))
+		fmt.Sprintf("every history of length <= %d (2 quick, 3 thorough) over 39 operation instances {String, Response, EvaluateString, EvaluateFile} x {succeeding, failing at run time, not found, given data of an unsupported kind (channel, function, complex number, maps with integer / boolean keys; top level and nested)} on a template directory with layout, component, loops and objects, under up to 6 configurations (debug on/off x no / working / missing / failing custom error page). Each operation's result (output, or error message + line + path, Response body + returned error) must equal the result of the same operation issued first after a fresh load; afterwards all operations still give their baselines, the configuration is unchanged and the caller's data is deep-equal to a copy. Non-trivial: a failing render or failing Response after a string/file evaluation or an error page. Distinct by construction.", maxLen))
 	defer c.Finish()
 	trees := c16Trees()
 	ntrees := len(trees)
@@ -383,7 +396,7 @@ func TestC16_HistoriesEnum(t *testing.T) {
 		}
 		rec(nil)
 	}
-	c.ExhaustivePart(fmt.Sprintf("all histories of length <= %d over 33 operations x %d configurations", maxLen, ntrees))
+	c.ExhaustivePart(fmt.Sprintf("all histories of length <= %d over 39 operations x %d configurations", maxLen, ntrees))
 }
 
 func TestC16_HistoriesRandom(t *testing.T) {
